@@ -2,7 +2,7 @@
 # cmp.sh <kind> <seed> <count> [tier] : developer helper, run harness + model, show disagreements
 cd /verif/.work
 ./rainverif $1 $2 $3 ${4:-quick} 2>/dev/null > cases_$1.txt
-cut -d'|' -f1-3 cases_$1.txt | /verif/ocaml/build/modelrun > model_$1.txt
+cut -d'|' -f1-3 cases_$1.txt | (ulimit -s unlimited 2>/dev/null; /verif/ocaml/build/modelrun) > model_$1.txt
 python3 - $1 <<'PY'
 import sys
 k=sys.argv[1]
